@@ -36,7 +36,9 @@ type Block struct {
 	Static bool
 	Ghost  bool
 	Prior  PriorMode
-	Orders int // 1 or 2 count-map insertion orders
+	// Orders: 2 = every case with both count-map insertion orders, 1 = order
+	// 0 only, 0 = one order per case, alternating from case to case.
+	Orders int
 }
 
 func ownerCodes(n int, mode PriorMode) [][]int {
@@ -66,9 +68,12 @@ func (b *Block) Each(fn func(c *Case)) int64 {
 	idx := make([]int, nf)
 	c.Owners = make([][]int, nf)
 	c.Gens = make([]int32, b.N)
-	orders := b.Orders
-	if orders < 1 || len(b.Parts) < 2 {
+	orders, alternate := b.Orders, false
+	if len(b.Parts) < 2 {
 		orders = 1
+	}
+	if orders == 0 {
+		orders, alternate = 1, true
 	}
 	var count int64
 	claims := make([]int, b.N)
@@ -106,6 +111,9 @@ func (b *Block) Each(fn func(c *Case)) int64 {
 			}
 			for o := 0; o < orders; o++ {
 				c.TopicOrder = o
+				if alternate {
+					c.TopicOrder = int(count & 1)
+				}
 				fn(c)
 				count++
 			}
@@ -222,6 +230,7 @@ func PartitionRackings(parts []int32, racks []string) [][][]string {
 // StickyBounds are the tier bounds of the sticky / cooperative-sticky sweeps
 // shared by C25 and C26.
 type StickyBounds struct {
+	Orders                              int // see Block.Orders
 	MaxMembers                          int
 	FullTotal, SpecialTotal, RacksTotal int // max total partitions per sweep
 	FullTotalAtMax                      int // max total partitions of the full-prior sweep at MaxMembers
@@ -229,9 +238,9 @@ type StickyBounds struct {
 
 func StickyTier(thorough bool) StickyBounds {
 	if thorough {
-		return StickyBounds{MaxMembers: 4, FullTotal: 6, FullTotalAtMax: 3, SpecialTotal: 5, RacksTotal: 4}
+		return StickyBounds{Orders: 2, MaxMembers: 4, FullTotal: 6, FullTotalAtMax: 3, SpecialTotal: 5, RacksTotal: 4}
 	}
-	return StickyBounds{MaxMembers: 3, FullTotal: 4, FullTotalAtMax: 4, SpecialTotal: 4, RacksTotal: 3}
+	return StickyBounds{Orders: 0, MaxMembers: 3, FullTotal: 4, FullTotalAtMax: 4, SpecialTotal: 4, RacksTotal: 3}
 }
 
 // StickyBlocks is the sticky / cooperative-sticky input space:
@@ -250,7 +259,7 @@ func StickyBlocks(b StickyBounds) []Block {
 		}
 		for _, parts := range PartConfigs(2, 3, total) {
 			for _, subs := range SubVectors(n, len(parts), false) {
-				out = append(out, Block{Sweep: "full", N: n, Parts: parts, Subs: subs, Prior: PriorFull, Orders: 2})
+				out = append(out, Block{Sweep: "full", N: n, Parts: parts, Subs: subs, Prior: PriorFull, Orders: b.Orders})
 			}
 		}
 	}
@@ -259,7 +268,7 @@ func StickyBlocks(b StickyBounds) []Block {
 			base := len(SubVectors(n, len(parts), false))
 			for _, subs := range SubVectors(n, len(parts), true)[base:] {
 				for _, ghost := range []bool{false, true} {
-					out = append(out, Block{Sweep: "special", N: n, Parts: parts, Subs: subs, Ghost: ghost, Prior: PriorSingle, Orders: 2})
+					out = append(out, Block{Sweep: "special", N: n, Parts: parts, Subs: subs, Ghost: ghost, Prior: PriorSingle, Orders: b.Orders})
 				}
 			}
 		}
